@@ -286,6 +286,15 @@ class Engine:
         tag, sub = name.split(":")[0], name.split(":")[1]
         r = z3.Int("wf_r")
         i = z3.Int("wf_i")
+        def enum_ok(t, kk):
+            return z3.Or([t == int(m.value) for m in kk.cls])
+        if tag in ("F", "G") and isinstance(k, KEnum):
+            st.assume(qforall([r], enum_ok(arr[r], k), patterns=[arr[r]]), quantified=True)
+        elif tag == "L" and sub == "e" and isinstance(k.elem, KEnum):
+            st.assume(qforall([r, i], enum_ok(arr[r][i], k.elem), patterns=[arr[r][i]]), quantified=True)
+        elif tag == "D" and sub == "v" and isinstance(k.v, KEnum):
+            kk = z3.Const("wf_k", sort_of(k.k))
+            st.assume(qforall([r, kk], enum_ok(arr[r][kk], k.v), patterns=[arr[r][kk]]), quantified=True)
         if tag in ("F", "G"):
             if is_refkind(k):
                 body = z3.And((arr[r] >= 0) if k.nullable else (arr[r] > 0), arr[r] < bound)
@@ -601,6 +610,20 @@ class Engine:
             return SV(KVal, z3.If(sv.term == 0, V.vnone, V.vlist(sv.term)))
         if isinstance(k, KDict) and k.k is KStr and k.v is KVal:
             return SV(KVal, z3.If(sv.term == 0, V.vnone, V.vdict(sv.term)))
+        if isinstance(k, KList) and k.elem in (KFloat, KInt, KStr, KBool):
+            # a typed list seen as a dynamic value: a fresh Val-list with the boxed elements
+            n = self.list_len(st, sv)
+            out = self.new_list(st, KList(KVal), n)
+            _, e_src = self.lnames(k)
+            _, e_dst = self.lnames(out.kind)
+            arr = st.fresh("boxl", z3.ArraySort(z3.IntSort(), val_sort()))
+            i = z3.Int("box_i")
+            src = self.harr(st, e_src)[sv.term]
+            boxed = self.box(st, SV(k.elem, src[i])).term
+            st.assume(qforall([i], arr[i] == boxed, patterns=[arr[i]]), quantified=True)
+            st.heap[e_dst] = z3.Store(self.harr(st, e_dst), out.term, arr)
+            self.set_is_tuple(st, out, False)
+            return SV(KVal, z3.If(sv.term == 0, V.vnone, V.vlist(out.term)))
         if isinstance(k, (KRef, KList, KDict, KSet)):
             return SV(KVal, z3.If(sv.term == 0, V.vnone, V.vobj(sv.term)))
         if k is KConst and isinstance(sv.const, EmptyLit):
